@@ -13,10 +13,18 @@ def dumpAll (s : State) : String :=
 
 def resName : Res → String
   | .ok => "ok" | .exists_ => "exists" | .invalid => "invalid" | .unknown => "unknown"
-  | .conflict => "conflict" | .pending => "pending"
+  | .conflict => "conflict" | .pending => "pending" | .err => "err"
+
+/-- injected transient etcd error of one call: the k-th `Get` of the snapshot key, the first `Delete`
+(DeleteTopic's offset cleanup), the k-th snapshot txn (`applied`: executed by etcd, answer lost) -/
+inductive Fail where
+  | none
+  | get (k : Nat)
+  | del
+  | txn (k : Nat) (applied : Bool)
 
 inductive Call where
-  | broker (b : Nat) (op : TOp)
+  | broker (b : Nat) (op : TOp) (f : Fail)
   | operator (crd : Snap)
   /-- hand broker `b` the oldest notification its watch stream is holding -/
   | late (b : Nat)
@@ -51,12 +59,33 @@ def parseCrd (s : String) : Option Snap :=
     | [t, n] => do pure ((← t.toNat?), (← n.toNat?))
     | _ => none
 
-def parseCall : List String → Option Call
+def parseFail (w : String) : Option Fail :=
+  if !w.startsWith "fail=" then none else
+  let spec := (w.drop 5).toString
+  match spec.splitOn ":" with
+  | [g] => if g.startsWith "get" then (g.drop 3).toString.toNat?.map .get else none
+  | [x, m] =>
+    let applied? : Option Bool := if m = "pre" then some false else if m = "post" then some true else none
+    if x = "del0" then applied?.map fun _ => .del
+    else if x.startsWith "txn" then do pure (.txn (← (x.drop 3).toString.toNat?) (← applied?))
+    else none
+  | _ => none
+
+/-- splits a trailing `fail=<spec>` token off a call group -/
+def splitFail (ws : List String) : Option (List String × Fail) :=
+  match ws.reverse with
+  | last :: restRev =>
+    if last.startsWith "fail=" then (parseFail last).map fun f => (restRev.reverse, f) else some (ws, .none)
+  | [] => some (ws, .none)
+
+def parseCall (ws : List String) : Option Call := do
+  let (ws, f) ← splitFail ws
+  match ws with
   | ["op", crd] => (parseCrd crd).map .operator
-  | [b, "create", t, n] => do pure (.broker (← b.toNat?) (.create (← t.toNat?) (← n.toInt?)))
-  | [b, "grow", t, n] => do pure (.broker (← b.toNat?) (.grow (← t.toNat?) (← n.toInt?)))
-  | [b, "delete", t] => do pure (.broker (← b.toNat?) (.delete (← t.toNat?)))
-  | ["late", b] => do pure (.late (← b.toNat?))
+  | [b, "create", t, n] => pure (.broker (← b.toNat?) (.create (← t.toNat?) (← n.toInt?)) f)
+  | [b, "grow", t, n] => pure (.broker (← b.toNat?) (.grow (← t.toNat?) (← n.toInt?)) f)
+  | [b, "delete", t] => pure (.broker (← b.toNat?) (.delete (← t.toNat?)) f)
+  | ["late", b] => pure (.late (← b.toNat?))
   | _ => none
 
 def splitWith (ws : List String) : List (List String) :=
@@ -65,23 +94,50 @@ def splitWith (ws : List String) : List (List String) :=
     | w :: r => if w = "with" then go [] (cur.reverse :: acc) r else go (w :: cur) acc r
   go [] [] ws
 
-/-- finish a pending update: the txn, and after a conflict the retry's txn (≤ 5 attempts). -/
-def finish (d : DS) (b : Nat) : Nat → DS × Res
+def isDelete : TOp → Bool
+  | .delete _ => true
+  | _ => false
+
+/-- the first attempt's read + mutation, with the faults that hit before any write -/
+def beginF (d : DS) (b : Nat) (op : TOp) : Fail → DS × Res
+  | .get 0 => stepD d (.getFail b)
+  | .del => if isDelete op then stepD d (.beginFail b op) else stepD d (.begin b op)
+  | _ => stepD d (.begin b op)
+
+/-- finish a pending update: the txn, and after a conflict the retry's txn (≤ 5 attempts); `i` counts
+the txns of this call, so that the injected error hits the right one. -/
+def finishF (d : DS) (b : Nat) (f : Fail) : Nat → Nat → DS × Res
+  | _, 0 => (d, .pending)
+  | i, fuel + 1 =>
+    let conflict := match (d.s.brokers b).pend with
+      | some (r, _, _) => r != d.s.rev
+      | none => false
+    let failNow : Option Bool := match f with
+      | .txn k applied => if k = i then some applied else none
+      | .get k => if conflict && k = i + 1 && i + 1 < maxAttempts then some false else none
+      | _ => none
+    match failNow with
+    | some applied => stepD d (.commitFail b applied)
+    | none =>
+      let (d', r) := stepD d (.commit b)
+      if r = .pending && (d'.s.brokers b).pend.isSome then finishF d' b f (i + 1) fuel else (d', r)
+
+def finishOp (d : DS) : Nat → DS × Res
   | 0 => (d, .pending)
   | fuel + 1 =>
-    let (d', r) := stepD d (.commit b)
-    if r = .pending && (d'.s.brokers b).pend.isSome then finish d' b fuel else (d', r)
+    let (d', r) := stepD d .opTxn
+    if r = .pending && d'.s.opPend.isSome then finishOp d' fuel else (d', r)
 
 def publish (d : DS) (crd : Snap) : DS × Res :=
   let (d1, _) := stepD d (.opGet crd)
-  stepD d1 .opTxn
+  finishOp d1 6
 
 /-- a complete call with nothing in between; a `late` delivery to a broker that is inside its own
 call only takes effect after that call (the watcher waits for `persistMu`): reported through `deferred` -/
 def callNow (d : DS) (outer : Nat) : Call → DS × String × Bool
-  | .broker b op =>
-    let (d1, r) := stepD d (.begin b op)
-    if r = .pending then let (d2, r2) := finish d1 b 6; (d2, resName r2, false) else (d1, resName r, false)
+  | .broker b op f =>
+    let (d1, r) := beginF d b op f
+    if r = .pending then let (d2, r2) := finishF d1 b f 0 6; (d2, resName r2, false) else (d1, resName r, false)
   | .operator crd => let (d1, r) := publish d crd; (d1, resName r, false)
   | .late b =>
     match d.held.getD b [] with
@@ -101,14 +157,16 @@ def stepLine (d : DS) (ws : List String) : DS × String :=
   | ["reset"] => (DS.init, "reset " ++ dumpAll DS.init.s)
   | "call" :: rest =>
     match (splitWith rest).mapM parseCall with
-    | some (.broker b op :: inj) =>
+    | some (.broker b op f :: inj) =>
       if b ≥ nBrokers || inj.any (fun c => match c with
-          | .broker b' _ => b' == b || b' ≥ nBrokers | .late b' => b' ≥ nBrokers | _ => false) then (d, "bad-op") else
-      let (d1, r) := stepD d (.begin b op)
-      if r != .pending then (d1, s!"call res={resName r} inj=- " ++ dumpAll d1.s) else
+          | .broker b' _ _ => b' == b || b' ≥ nBrokers | .late b' => b' ≥ nBrokers | _ => false) then (d, "bad-op") else
+      let (d1, r) := beginF d b op f
+      -- the injected calls run at the call's first Delete / first snapshot write: after a mutation that succeeded locally
+      let reached := r == .pending || (r == .err && (match f with | .del => true | _ => false))
+      if !reached then (d1, s!"call res={resName r} inj=- " ++ dumpAll d1.s) else
       let (d2, rs, deferred) := inj.foldl (fun (acc : DS × List String × Bool) c =>
         let (d', r', df) := callNow acc.1 b c; (d', acc.2.1 ++ [r'], acc.2.2 || df)) (d1, [], false)
-      let (d3, r3) := finish d2 b 6
+      let (d3, r3) := if r == .pending then finishF d2 b f 0 6 else (d2, r)
       -- deliveries that had to wait for the call: the watcher now re-reads the key
       let d4 := if deferred then (stepD d3 (.watch b)).1 else d3
       let injs := if rs.isEmpty then "-" else joinWith "," rs
@@ -124,9 +182,23 @@ def stepLine (d : DS) (ws : List String) : DS × String :=
       | some d' => (d', "late delivered " ++ dumpAll d'.s)
       | none => (d, "late none " ++ dumpAll d.s)
     | none => (d, "bad-op")
-  | ["publish", crd] => match parseCrd crd with
-    | some crd => let (d', r) := publish d crd; (d', s!"publish res={resName r} " ++ dumpAll d'.s)
-    | none => (d, "bad-op")
+  | "publish" :: crd :: rest =>
+    -- `publish <crd> with <call> …`: the calls run between the operator's Get and its first Txn
+    let groups : Option (List Call) := match rest with
+      | [] => some []
+      | "with" :: r => (splitWith r).mapM parseCall
+      | _ => none
+    match parseCrd crd, groups with
+    | some crd, some inj =>
+      if inj.any (fun c => match c with
+          | .broker b' _ _ => b' ≥ nBrokers | .late b' => b' ≥ nBrokers | .operator _ => true) then (d, "bad-op") else
+      let (d1, _) := stepD d (.opGet crd)
+      let (d2, rs) := inj.foldl (fun (acc : DS × List String) c =>
+        let (d', r', _) := callNow acc.1 nBrokers c; (d', acc.2 ++ [r'])) (d1, [])
+      let (d3, r) := finishOp d2 6
+      let injs := if rs.isEmpty then "-" else joinWith "," rs
+      (d3, s!"publish res={resName r} inj={injs} " ++ dumpAll d3.s)
+    | _, _ => (d, "bad-op")
   | ["live"] => (d, "live ok")
   | ["stress", _, _] => (d, "stress ok")
   | _ => (d, "bad-op")
